@@ -26,7 +26,7 @@ ASSUMPTIONS = [
     "value-space mapping of DESIGN appendix D: xsd:int/long/double/boolean/string/dateTime/anyURI and prov:QUALIFIED_NAME are compared as values, any other datatype as (lexical, datatype)",
 ]
 REQUIRED_CLASSES = {"all": ["has:bundle", "has:default_ns", "has:anon_relation", "value:float", "value:lang", "value:lit",
-                            "value:dt", "string:multiline", "string:backslash", "string:quote", "touched_before_printing"]}
+                            "value:dt", "string:multiline", "string:backslash", "string:quote", "touched_before_printing", "printed_then_modified_then_printed"]}
 
 
 def budget(tier):
@@ -34,7 +34,9 @@ def budget(tier):
 
 
 def strategy(tier):
-    return gen.recipe("provn")
+    from . import c05
+    follow = st.one_of(st.just([]), st.just([]), st.lists(c05.follow_up_op(), min_size=1, max_size=3))
+    return st.builds(lambda r, f: dict(r, follow=f), gen.recipe("provn"), follow)
 
 
 def matrix(tier):
@@ -69,7 +71,23 @@ def check(case, ctx):
                         ctx.count("string:quote")
     has_rel_opt = any(not m["type"].endswith(("#Entity", "#Agent", "#Activity")) for ms in b.model for m in ms)
     ctx.nontrivial(has_rel_opt or len(b.scopes) > 1 or nt)
-    want = canon(d)
+    if case.get("follow"):
+        # the document is printed once, then modified through the public mutators, then printed again: the text
+        # must describe the document as it is now
+        from . import c05
+        from ..build import apply_op
+        try:
+            d.get_provn()
+        except Exception as e:
+            return [exc_item(e, "get_provn")]
+        dummy = []
+        for op in case["follow"]:
+            if op[0] in ("readd", "set_time", "asserted_type"):
+                c05._c05_op(b, op, dummy, ctx)
+            else:
+                apply_op(b, op)
+        ctx.count("printed_then_modified_then_printed")
+    want = b.expected() if case.get("follow") else canon(d)
     if len(case["ops"]) % 2:
         from ..touch import readonly_touch
         readonly_touch(d, len(case["ops"]))
